@@ -546,7 +546,7 @@ class DiHypergraph:
             raise XGIError("Directed edge must be a list or tuple!")
 
         tail, head = list(tail), list(head)
-        if None in tail or None in head:
+        if None in set(tail) or None in set(head):  # also rejects unhashable members
             raise XGIError("None cannot be a node or edge")
 
         uid = next(self._edge_uid) if idx is None else idx
